@@ -136,7 +136,9 @@ class C08(CheckBase):
         for i, ent in enumerate(inputs):
             if rng.chance(0.12):
                 # file names are data too (they end up in diagnostics): printf conversions, blanks, control characters
-                ent['name'] = rng.choice(['100%%sure%d.bas', '50%%n%d.bbc', '%%s%%s%%s%%s%%s%%s%d', 'a b%d.bbc', 'pro\tg%d', '%%d%d', '%%%%%d', 'x%d' + 'y' * 200, '%%c%%c%d', '%%-5000d%d']) % i
+                ent['name'] = rng.choice(['100%%sure%d.bas', '50%%n%d.bbc', '%%s%%s%%s%%s%%s%%s%d', 'a b%d.bbc', 'pro\tg%d', '%%d%d', '%%%%%d', 'x%d' + 'y' * 200, '%%c%%c%d', '%%-5000d%d',
+                                          # longer than any path can be: the open fails, the name still has to be reported
+                                          'p%d' + 'q' * 4300, 'p%d/' + 'r/' * 3000 + 's', 'p%d' + 't' * 70000]) % i
         delivery = rng.weighted([(6, 'file'), (2, 'stdin_file'), (2, 'stdin_pipe')]) if ninputs >= 1 else 'file'
         fault = rng.weighted([(10, None), (1, 'openfail'), (2, 'rfail'), (2, 'rchunk'), (1, 'stdout_wfail')])
         case = {'dialect': dialect, 'listo': listo, 'extra': extra, 'inputs': inputs, 'delivery': delivery, 'fault': fault,
@@ -171,7 +173,7 @@ class C08(CheckBase):
             name = ent.get('name') or 'in%d.bbc' % i
             names.append(name)
             data = self.materialise(ent)
-            if data is not None:
+            if data is not None and len(name) < 250 and '/' not in name:
                 files[name] = data
         sb.reset(files)
         argv = ['bbcbasic_to_text']
